@@ -296,27 +296,28 @@ func (e *Engine) fnID(f *ssa.Function) Term {
 }
 
 func (e *Engine) closureID(x *Exec, c CloV, st *State) Term {
-	// closure identity: an injective function of the code and the captured values
-	args := []Term{e.fnID(c.Fn)}
+	var caps []Term
 	for _, b := range c.Bind {
 		if pv, ok := b.(PV); ok && st != nil {
-			args = append(args, x.load(pv, st))
+			caps = append(caps, x.load(pv, st))
 			continue
 		}
 		t, ok := x.termOf(b, st)
 		if !ok {
 			return x.fresh("clo", SInt)
 		}
-		args = append(args, t)
+		caps = append(caps, t)
 	}
-	name := fmt.Sprintf("clo_%d", e.fnIDs[c.Fn])
-	key := "(declare-fun " + name + " ("
-	for _, a := range args {
-		key += a.Sort.Name + " "
+	if len(caps) == 0 {
+		return e.fnID(c.Fn)
 	}
-	key += ") Int)"
-	x.declareOnce(key)
-	return mk(SInt, name, args...)
+	return x.closureTerm(c.Fn, caps)
+}
+
+// openWorld: function types whose values may be supplied by users of the library.
+func (e *Engine) openWorld(t types.Type) bool {
+	n, ok := t.(*types.Named)
+	return ok && n.Obj().Name() == "RenderFN"
 }
 
 func (x *Exec) declareOnce(text string) {
@@ -694,6 +695,29 @@ type table struct {
 }
 
 func (t *table) lookup(x *Exec, key Term) (has Term, val Term) {
+	for _, v := range t.vals {
+		if strings.HasPrefix(v.S, "(clo_") {
+			op, args := splitApp(v.S)
+			var id int
+			fmt.Sscanf(op, "clo_%d", &id)
+			if id >= 1 && id <= len(x.eng.fnByID) {
+				fn := x.eng.fnByID[id-1]
+				var caps []Term
+				for k, a := range args {
+					if k < len(fn.FreeVars) {
+						if pt, ok := fn.FreeVars[k].Type().(*types.Pointer); ok {
+							caps = append(caps, Term{a, x.eng.tc.sortOf(pt.Elem())})
+						}
+					}
+				}
+				if len(caps) == len(args) {
+					x.closureTerm(fn, caps)
+				}
+			}
+		} else if isNumLit(v.S) && v.Sort == SInt && t.valSort == SInt {
+			x.assume(TTrue, Eq(x.fnTag(v), IntLit(0)))
+		}
+	}
 	has = TFalse
 	val = x.zero(t.valSort, nil)
 	for i := len(t.keys) - 1; i >= 0; i-- {
@@ -833,6 +857,40 @@ func (e *Engine) staticTerm(v ssa.Value) (Term, bool) {
 
 // factoryResult is the function-value id of calling closure factory c on args.
 func (e *Engine) factoryResult(c *ssa.Function, args []Term) Term {
+	// a factory of the form "return func(...) {... captured parameters ...}": the
+	// value is the closure term over the captured arguments
+	if len(c.Blocks) == 1 {
+		for _, in := range c.Blocks[0].Instrs {
+			if mc, ok := in.(*ssa.MakeClosure); ok {
+				var caps []Term
+				good := true
+				for _, b := range mc.Bindings {
+					al, isAl := b.(*ssa.Alloc)
+					if !isAl {
+						good = false
+						break
+					}
+					var src ssa.Value
+					if refs := al.Referrers(); refs != nil {
+						for _, r := range *refs {
+							if st, ok := r.(*ssa.Store); ok && st.Addr == al {
+								src = st.Val
+							}
+						}
+					}
+					idx := paramIndex(c, src)
+					if idx < 0 || idx >= len(args) {
+						good = false
+						break
+					}
+					caps = append(caps, args[idx])
+				}
+				if good {
+					return mk(SInt, fmt.Sprintf("clo_%d", e.fnIDs[mc.Fn.(*ssa.Function)]), caps...)
+				}
+			}
+		}
+	}
 	name := fmt.Sprintf("fac_%d", e.fnIDs[c])
 	return mk(SInt, name, args...)
 }
